@@ -217,3 +217,281 @@ class PlainColumnProjection(Spec):
 
 
 SPECS = [PlainColumnProjection()]
+
+
+# ---------------------------------------------------------------------------------------------------------------------
+# Merge._simplify_up, Projection / Index branch: which input columns a pruned join keeps
+# ---------------------------------------------------------------------------------------------------------------------
+from vf.contracts.filters import SFX, SUFFIXES  # noqa: E402
+from vf.pyvc.values import Ref, SetVal  # noqa: E402
+
+
+def _distinct(seq):
+    i, j = fresh_int("i"), fresh_int("j")
+    return z3.ForAll([i, j], z3.Implies(z3.And(0 <= i, i < j, j < zint(seq.length)), seq.get(i) != seq.get(j)))
+
+
+class MergeProjection(Spec):
+    """Merge._simplify_up with a Projection / Index parent: the join is rebuilt on left[project_left], right[project_right].
+
+    From the property (pruning never changes a result), for every column c the consumers request (`projection`, as
+    collected by determine_column_projection - assumed contract):
+      requested-columns-are-produced  c is a column of an input            => that input keeps c;
+                                      c is x + <that input's suffix> for a column x of an input
+                                                                           => that input keeps x, and if the other input has x too it
+                                                                              keeps x as well (the suffix is only applied on a clash)
+      join-keys-kept                  every key column of an input is kept
+      no-duplicate-selection          project_left / project_right select no column twice (a duplicated selection duplicates output columns)
+      selection-within-input          only columns the input has
+    """
+
+    file, qualname, props = "dask_expr/_merge.py", "Merge._simplify_up", ["C04", "C01"]
+    scenario = "projection-branch"
+    case = {"suffixes": ("_x", "_y"), "parent": "Projection"}
+    sizes = {"left_columns": range(1, 3), "right_columns": range(1, 3), "projection": range(1, 3), "left_on": range(1, 2), "right_on": range(1, 2)}
+    assumptions = ["assumed contract of determine_column_projection (see PlainColumnProjection); `_convert_to_list` returns a list unchanged; `is_scalar` is False for a list",
+                   "object model: left.columns / right.columns are duplicate-free label sequences; f'{col}{suffix}' is an uninterpreted function of the label per (concrete) suffix"]
+
+    def cases(self):
+        for sfx in SUFFIXES:
+            for parent in ("Projection", "Index"):
+                yield {"suffixes": sfx, "parent": parent}
+
+    def make_inputs(self, ex, sym, fr):
+        L, R = sym.seq("left_columns", Lab, kind="list"), sym.seq("right_columns", Lab, kind="list")
+        PROJ = sym.seq("projection", Lab, kind="list")
+        LO, RO = sym.seq("left_on", Lab, kind="list"), sym.seq("right_on", Lab, kind="list")
+        sym.pc.append(_distinct(L))
+        sym.pc.append(_distinct(R))
+        left, right = Obj("left", {"columns": L}, cls=("Expr",)), Obj("right", {"columns": R}, cls=("Expr",))
+        pcols = Opaque("parent_columns_operand")
+        parent = Obj("parent", {"operand": contract_fn(lambda e, f, name: pcols)}, cls=("Expr", self.case["parent"]))
+        me = Obj("self", {"left": left, "right": right, "left_on": LO, "right_on": RO, "suffixes": self.case["suffixes"], "operands": Opaque("self.operands")}, cls=("Expr", "Merge"))
+        self._proj = PROJ
+        return {"self": me, "parent": parent, "dependents": Opaque("dependents"), "L": L, "R": R, "PROJ": PROJ, "LO": LO, "RO": RO, "left": left, "right": right, "pcols": pcols}
+
+    def s(self, side, x):
+        sfx = self.case["suffixes"][0 if side == "left" else 1]
+        return x if sfx == "" else SFX[sfx](x)
+
+    # ---- hooks
+    @property
+    def callees(self):
+        def mk_set(ex, fr, *args):
+            if not args:
+                return ex.set_of_values([])
+            seq = ex.seq_of(args[0], fr)
+            sv = SetVal(lambda x, seq=seq: _in(seq, x))
+            sv.seq = seq
+            return sv
+
+        return {"builtin:set": mk_set}
+
+    def call(self, ex, fr, name, args, kwargs):
+        if name == "determine_column_projection":
+            return ex.new_list(fr, self._proj)
+        if name == "_convert_to_list":
+            return args[0]
+        if name == "is_scalar":
+            return False
+        if name == "builtin:type":
+            return Opaque("type(%s)" % args[0].name)
+        if name == "type(parent)":
+            return Term("Index", args)
+        return NotImplemented
+
+    def set_compare(self, ex, fr, op, a, b):
+        if isinstance(op, ast.Lt) and hasattr(a, "seq") and hasattr(b, "seq"):
+            k = fresh_int("k")
+            sub = z3.ForAll([k], z3.Implies(z3.And(k >= 0, k < zint(a.seq.length)), _in(b.seq, a.seq.get(k))))
+            k2 = fresh_int("k")
+            strict = z3.Exists([k2], z3.And(k2 >= 0, k2 < zint(b.seq.length), z3.Not(_in(a.seq, b.seq.get(k2)))))
+            return z3.And(sub, strict)
+        from vf.pyvc.exec import Unsupported
+
+        raise Unsupported("set comparison of another shape")
+
+    def fstring(self, ex, fr, parts):
+        if len(parts) == 2 and isinstance(parts[1], str) and z3.is_expr(parts[0]) and parts[0].sort() == Lab:
+            return parts[0] if parts[1] == "" else SFX[parts[1]](parts[0])
+        return NotImplemented
+
+    def isinstance_hook(self, ex, fr, v, tname):
+        if isinstance(v, Obj):
+            return tname in (v.cls or ())
+        return NotImplemented
+
+    def havoc(self, ex, fr, name, old):
+        if isinstance(old, Ref) and old.kind == "list":
+            f = fresh_fun(name, z3.IntSort(), Lab)
+            n = fresh_int(name + "_len")
+            fr.pc.append(n >= 0)
+            fr.heap[old.oid] = Seq(n, lambda k, f=f: f(zint(k)), "list")
+            return old
+        return NotImplemented
+
+    def subscript(self, ex, fr, base, idx):
+        if isinstance(base, Obj) and base.name in ("left", "right"):
+            return Term("Projection", (base, idx))
+        if isinstance(base, Term):
+            return Term("Projection", (base, idx))
+        return NotImplemented
+
+    def star_call(self, ex, fr, e):
+        if ast.unparse(e.func) == "type(self)" and len(e.args) == 3:
+            return Term("Merge", (ex.eval(e.args[0], fr), ex.eval(e.args[1], fr)))
+        return NotImplemented
+
+    # ---- the loop invariants: what the two selection lists hold after i columns
+    def _conds(self, e):
+        L, R, PROJ, LO, RO = e["L"], e["R"], e["PROJ"], e["LO"], e["RO"]
+        inL, inR, inP = (lambda x: _in(L, x)), (lambda x: _in(R, x)), (lambda x: _in(PROJ, x))
+        sl, sr = (lambda x: self.s("left", x)), (lambda x: self.s("right", x))
+        plainL = lambda x: z3.Or(_in(LO, x), inP(x))
+        plainR = lambda x: z3.Or(_in(RO, x), inP(x))
+        l1 = lambda x: z3.Or(plainL(x), inP(sl(x)))  # loop 1 puts x (a left column) into project_left
+        r1 = lambda x: z3.And(inP(sl(x)), inR(x))  # ... and into project_right
+        r2 = lambda x: z3.Or(plainR(x), inP(sr(x)))  # loop 2 puts x (a right column) into project_right
+        l2 = lambda x: z3.And(inP(sr(x)), inL(x))  # ... and into project_left
+        return inL, inR, l1, r1, l2, r2
+
+    @property
+    def invariants(self):
+        def seen(seq, i, x):
+            j = fresh_int("j")
+            return z3.Exists([j], z3.And(j >= 0, j < zint(i), seq.get(j) == x))
+
+        def inv0(c, e):
+            if not c.symbolic:
+                return True
+            inL, inR, l1, r1, l2, r2 = self._conds(e)
+            PL, PR = c.ex.seq_of(e["_acc"][0], c.fr), c.ex.seq_of(e["_acc"][1], c.fr)
+            x = z3.Const("x", Lab)
+            return {"left-selection": z3.ForAll([x], _in(PL, x) == z3.And(seen(e["L"], e["_i"], x), l1(x))), "right-selection": z3.ForAll([x], _in(PR, x) == z3.And(seen(e["L"], e["_i"], x), r1(x))),
+                    "left-distinct": _distinct(PL), "right-distinct": _distinct(PR)}
+
+        def inv1(c, e):
+            if not c.symbolic:
+                return True
+            inL, inR, l1, r1, l2, r2 = self._conds(e)
+            PR, PL = c.ex.seq_of(e["_acc"][0], c.fr), c.ex.seq_of(e["_acc"][1], c.fr)
+            x = z3.Const("x", Lab)
+            return {"right-selection": z3.ForAll([x], _in(PR, x) == z3.Or(z3.And(inL(x), r1(x)), z3.And(seen(e["R"], e["_i"], x), r2(x)))),
+                    "left-selection": z3.ForAll([x], _in(PL, x) == z3.Or(z3.And(inL(x), l1(x)), z3.And(seen(e["R"], e["_i"], x), l2(x)))), "left-distinct": _distinct(PL), "right-distinct": _distinct(PR)}
+
+        return {0: inv0, 1: inv1}
+
+    def ensures(self):
+        def kept(c, r):
+            if r is None:
+                return None
+            m = r
+            while isinstance(m, Term) and m.cls != "Merge":
+                m = m.args[0]
+            pl, pr = m.args[0].args[1], m.args[1].args[1]
+            return c.ex.seq_of(pl, c.fr), c.ex.seq_of(pr, c.fr)
+
+        def _produced(which):
+            def clause(c, e, r):
+                if not c.symbolic:
+                    return e["ok_produced"]
+                k = kept(c, r)
+                if k is None:
+                    return True
+                PL, PR = k
+                inL, inR, *_ = self._conds(e)
+                cc, x = z3.Const("c", Lab), z3.Const("x", Lab)
+                inP = lambda y: _in(e["PROJ"], y)
+                if which == "plain-left":
+                    return z3.ForAll([cc], z3.Implies(z3.And(inP(cc), inL(cc)), _in(PL, cc)))
+                if which == "plain-right":
+                    return z3.ForAll([cc], z3.Implies(z3.And(inP(cc), inR(cc)), _in(PR, cc)))
+                if which == "suffixed-left":
+                    return z3.ForAll([x], z3.Implies(z3.And(inL(x), inP(self.s("left", x))), z3.And(_in(PL, x), z3.Implies(inR(x), _in(PR, x)))))
+                return z3.ForAll([x], z3.Implies(z3.And(inR(x), inP(self.s("right", x))), z3.And(_in(PR, x), z3.Implies(inL(x), _in(PL, x)))))
+
+            return clause
+
+        def keys(c, e, r):
+            if not c.symbolic:
+                return e["ok_keys"]
+            k = kept(c, r)
+            if k is None:
+                return True
+            PL, PR = k
+            inL, inR, *_ = self._conds(e)
+            x = z3.Const("x", Lab)
+            return z3.ForAll([x], z3.And(z3.Implies(z3.And(inL(x), _in(e["LO"], x)), _in(PL, x)), z3.Implies(z3.And(inR(x), _in(e["RO"], x)), _in(PR, x))))
+
+        def nodup(c, e, r):
+            if not c.symbolic:
+                return e["ok_nodup"]
+            k = kept(c, r)
+            return True if k is None else z3.And(_distinct(k[0]), _distinct(k[1]))
+
+        def within(c, e, r):
+            if not c.symbolic:
+                return e["ok_within"]
+            k = kept(c, r)
+            if k is None:
+                return True
+            PL, PR = k
+            inL, inR, *_ = self._conds(e)
+            x = z3.Const("x", Lab)
+            return z3.ForAll([x], z3.And(z3.Implies(_in(PL, x), inL(x)), z3.Implies(_in(PR, x), inR(x))))
+
+        return {"requested-columns-are-produced:plain-name-of-a-left-column": _produced("plain-left"), "requested-columns-are-produced:plain-name-of-a-right-column": _produced("plain-right"),
+                "requested-columns-are-produced:left-column-under-its-suffix": _produced("suffixed-left"), "requested-columns-are-produced:right-column-under-its-suffix": _produced("suffixed-right"), "join-keys-kept": keys, "no-duplicate-selection": nodup, "selection-within-input": within}
+
+    # ---- concrete: real merges; "produced" is decided by executing the pruned join
+    def concrete_env(self, inputs):
+        return None
+
+    def concrete_inputs(self):
+        keycfg = [("on_k", dict(on="k")), ("lk_rj", dict(left_on="k", right_on="j")), ("two", dict(left_on=["k", "b"], right_on=["j", "b"]))]
+        sels = [["lv"], ["rv"], ["b_x"], ["b_y"], ["b_x", "b_y"], ["k"], ["k_x"], ["k_y"], ["k_x", "rv"], ["j"], ["lv", "rv"], ["b"], ["z"], ["k_y", "lv"]]
+        for sfx, (kn, kw), sel in itertools.product(SUFFIXES, keycfg, sels):
+            yield {"suffixes": sfx, "keys": kn, "kw": kw, "sel": sel}
+
+    def run_concrete(self, inputs):
+        import pandas as pd
+
+        import dask_expr as dx
+        from dask_expr._core import collect_dependents
+
+        lp = pd.DataFrame({"k": [1, 2, 3, 4], "b": [1, 1, 2, 2], "lv": [10, 20, 30, 40], "z": [0, 0, 0, 0]})
+        rp = pd.DataFrame({"j": [1, 2, 3, 7], "k": [5, 6, 7, 8], "b": [1, 1, 2, 2], "rv": [1, 2, 3, 4], "y": [1, 1, 1, 1]})
+        if inputs["keys"] == "on_k":
+            rp = rp.drop(columns=["k"]).rename(columns={"j": "k"})
+        self.case = {"suffixes": inputs["suffixes"], "parent": "Projection"}
+        left, right = dx.from_pandas(lp, npartitions=2), dx.from_pandas(rp, npartitions=2)
+        try:
+            m = left.merge(right, suffixes=inputs["suffixes"], **inputs["kw"])
+            want = lp.merge(rp, suffixes=inputs["suffixes"], **inputs["kw"])
+        except Exception:
+            raise SkipInput()
+        if any(c not in m.columns for c in inputs["sel"]):
+            raise SkipInput()
+        q = m[inputs["sel"]]
+        out = m.expr._simplify_up(q.expr, collect_dependents(q.expr))
+        env = {"ok_produced": True, "ok_keys": True, "ok_nodup": True, "ok_within": True}
+        if out is not None:
+            mm = out
+            while type(mm) is not type(m.expr):
+                mm = mm.frame
+            pl, pr = list(mm.left.columns), list(mm.right.columns)
+            env["ok_nodup"] = len(set(pl)) == len(pl) and len(set(pr)) == len(pr)
+            env["ok_within"] = set(pl) <= set(lp.columns) and set(pr) <= set(rp.columns)
+            lo = mm.left_on if isinstance(mm.left_on, list) else [mm.left_on]
+            ro = mm.right_on if isinstance(mm.right_on, list) else [mm.right_on]
+            env["ok_keys"] = all(c in pl for c in lo if c in lp.columns) and all(c in pr for c in ro if c in rp.columns)
+            try:
+                got = dx.new_collection(out).compute()
+                exp = want[inputs["sel"]]
+                env["ok_produced"] = list(got.columns) == list(exp.columns) and got.sort_values(list(got.columns)).reset_index(drop=True).equals(exp.sort_values(list(exp.columns)).reset_index(drop=True))
+            except Exception:
+                env["ok_produced"] = False
+        return env, out
+
+
+SPECS.append(MergeProjection())
